@@ -589,9 +589,24 @@ def run(prog, rep, tier):
     for a in Sc.select("attrstore", qname=fc.qname):
         if a.attr == "p":
             pterm = a.value
-    w_ = ("ext", "numpy.atleast_2d", (("param", "W"),), ())
-    rep.check("RANGE.p", pterm in (("ext", "len", (w_,), ()), ("ext", "len", (("param", "W"),), ()), ("sub", ("attr", w_, "shape"), ("const", 0))),
-              fwhere(fc), "p = number of variables of W", "self.p is %s" % (fmt(pterm) if pterm else None))
+
+    def same_shape_as_W(t):
+        # W itself under wrappers that keep the shape of a 2-d matrix (atleast_2d, array / asarray with any dtype, copy, astype)
+        while isinstance(t, tuple):
+            if t == ("param", "W"):
+                return True
+            if t[0] == "ext" and t[1] in ("numpy.atleast_2d", "numpy.array", "numpy.asarray", "numpy.asanyarray", "numpy.copy", "numpy.ascontiguousarray") and t[2] \
+                    and not (set(dict(t[3])) - {"dtype", "copy", "order"}):
+                t = t[2][0]
+            elif t[0] == "method" and t[2] in ("copy", "astype"):
+                t = t[1]
+            else:
+                return False
+        return False
+    okp = pterm is not None and ((pterm[0] == "ext" and pterm[1] == "len" and len(pterm[2]) == 1 and same_shape_as_W(pterm[2][0])) or
+                                 (pterm[0] == "sub" and isinstance(pterm[1], tuple) and pterm[1][0] == "attr" and pterm[1][2] == "shape"
+                                  and same_shape_as_W(pterm[1][1]) and pterm[2] in (("const", 0), ("const", 1), ("const", -1), ("const", -2))))
+    rep.check("RANGE.p", okp, fwhere(fc), "p = number of variables of W", "self.p is %s" % (fmt(pterm) if pterm else None))
     for name in ("means", "variances"):
         us = [c for c in Sc.select("call", qname=fc.qname) if c.callkind == "method" and c.target == ".uniform"
               and any(mentions(a, ("param", name)) for a in c.args + list(c.kwargs.values()))]
